@@ -101,4 +101,4 @@ def prop(case):
     return Obs(bool(n_ovl or n_busy), labels, checks=len(b.c.lines) * lanes)
 
 
-PARTS = [Part('settle', prop, strategy=cases, quick=(8, 400), thorough=(16, 3000))]
+PARTS = [Part('settle', prop, strategy=cases, quick=(8, 400), thorough=(16, 10000))]
